@@ -6,8 +6,8 @@ FILES = ["common/vh.go", "routing/core_world.go", "routing/core_replay.go"]
 ALGOS = ["epidemic", "spray", "binary_spray", "prophet", "dtlsr"]
 
 
-def attr(origin, dst, prev="none", life="long", clockless=False, tsg=0, req=(), admin=False, rptlocal=False, hop=(), hasunk=False, unkf=(), copies=0, time=False, frag=False, rptalias=False, about="", rkind="", lsd=0, desc=False, unkmore=0, rptnone=False, age=0, oldts=False, anon=False, ownsrc=False):
-    return dict(ownsrc=ownsrc, about=about, rkind=rkind, lsd=lsd, desc=desc, unkmore=unkmore, rptnone=rptnone, age=age, oldts=oldts, anon=anon, origin=origin, dst=dst, prev=prev, life=life, clockless=clockless, tsg=tsg, req=list(req), admin=admin, rptlocal=rptlocal,
+def attr(origin, dst, prev="none", life="long", clockless=False, tsg=0, req=(), admin=False, rptlocal=False, hop=(), hasunk=False, unkf=(), copies=0, time=False, frag=False, rptalias=False, about="", rkind="", lsd=0, desc=False, unkmore=0, rptnone=False, age=0, oldts=False, anon=False, ownsrc=False, rptnoagent=False):
+    return dict(rptnoagent=rptnoagent, ownsrc=ownsrc, about=about, rkind=rkind, lsd=lsd, desc=desc, unkmore=unkmore, rptnone=rptnone, age=age, oldts=oldts, anon=anon, origin=origin, dst=dst, prev=prev, life=life, clockless=clockless, tsg=tsg, req=list(req), admin=admin, rptlocal=rptlocal,
                 hop=list(hop), hasunk=hasunk, unkf=list(unkf), copies=copies, time=time, frag=frag, rptalias=rptalias)
 
 
@@ -34,6 +34,7 @@ def mc_module(fam):
         f.pop("ownsrc")
         f.pop("frag")
         f.pop("rptalias")
+        f.pop("rptnoagent")
         f.pop("lsd")
         f.pop("desc")
         f.pop("unkmore")
